@@ -2,31 +2,12 @@
    (src/bytearray.c) as translated into Gen/Prog.v: on two stored strings / byte arrays the sign of
    the result is the model's lex_cmp (first differing unsigned byte, then the lengths).  memcmp is a
    primitive of the interpreter (-1 / 0 / 1 by the first differing byte; libc promises the sign). *)
-From Sbdf Require Import ImpCall Gen.Prog Gen.Consts Base Prim BaseFacts ImpFacts ImpFacts7 ImpFactsFrame.
+From Sbdf Require Import ImpCall Gen.Prog Gen.Consts Base Prim BaseFacts ImpBase ImpFactsStr.
 From Coq Require Import ZifyBool.
 Local Open Scope Z_scope.
 Ltac Zify.zify_post_hook ::= Z.div_mod_to_equations.
 
-(* memcmp over the common prefix decides, else the lengths: that is lex_cmp *)
-Lemma lex_cmp_memcmp a : forall b,
-  let k := Z.min (zlen a) (zlen b) in
-  let c := memcmp_l (ztake k a) (ztake k b) in
-  lex_cmp a b = if c =? 0 then Z.sgn (zlen a - zlen b) else c.
-Proof.
-  induction a as [|x a IH]; intros b; cbn zeta.
-  - destruct b as [|y b]; [reflexivity|]. cbn [lex_cmp]. rewrite zlen_cons. pose proof (zlen_nonneg b).
-    change (zlen (@nil Z)) with 0. replace (Z.min 0 (1 + zlen b)) with 0 by lia. cbn [ztake Z.to_nat firstn memcmp_l Z.eqb]. rewrite Z.sgn_neg by lia. reflexivity.
-  - destruct b as [|y b].
-    + cbn [lex_cmp]. rewrite zlen_cons. pose proof (zlen_nonneg a). change (zlen (@nil Z)) with 0. replace (Z.min (1 + zlen a) 0) with 0 by lia. cbn [ztake Z.to_nat firstn memcmp_l Z.eqb]. rewrite Z.sgn_pos by lia. reflexivity.
-    + cbn [lex_cmp]. rewrite !zlen_cons. pose proof (zlen_nonneg a). pose proof (zlen_nonneg b).
-      replace (Z.min (1 + zlen a) (1 + zlen b)) with (1 + Z.min (zlen a) (zlen b)) by lia.
-      rewrite !(ztake_cons_pos _ _ (1 + Z.min (zlen a) (zlen b))) by lia. replace (1 + Z.min (zlen a) (zlen b) - 1) with (Z.min (zlen a) (zlen b)) by lia.
-      cbn [memcmp_l]. destruct (x <? y) eqn:E1; [reflexivity|]. destruct (y <? x) eqn:E2; [reflexivity|].
-      rewrite IH. cbn zeta. replace (1 + zlen a - (1 + zlen b)) with (zlen a - zlen b) by lia. reflexivity.
-Qed.
 
-Lemma memcmp_l_range a : forall b, -1 <= memcmp_l a b <= 1.
-Proof. induction a as [|x a IH]; intros [|y b]; cbn [memcmp_l]; try lia. destruct (x <? y); [lia|]. destruct (y <? x); [lia|apply IH]. Qed.
 
 (* two stored strings one after the other in the caller's memory *)
 Definition two_str (a b : list Z) : list Z := str_mem [] a (le32 (zlen b + 1) ++ b ++ [0]).
@@ -96,7 +77,6 @@ Qed.
 
 
 (* ================================================================== byte arrays: header = length, no terminator *)
-Definition ba_mem (pre bytes post : list Z) : list Z := pre ++ le32 (zlen bytes) ++ bytes ++ post.
 
 Lemma get_array_length_gen pre n rest bv o : 0 <= n < 2147483648 ->
   bsE prog_env (fbody prog_sbdf_get_array_length) (ga (zlen pre + 4) bv (pre ++ le32 n ++ rest) o)
